@@ -55,7 +55,7 @@ def shards(tier):
     for L in range(1, b['two_len'] + 1):
         for first in 'abc':
             out.append({'kind': 'two', 'L': L, 'first': first})
-    for ai in (1, 2):
+    for ai in range(1, len(TWO_ALPHABETS)):
         for L in range(1, b['two_len']):
             out.append({'kind': 'two', 'L': L, 'alpha': ai})
     for i in range(len(LONG_PARTS)):
@@ -67,8 +67,9 @@ LONG_PARTS = ((480, 260, 220), (500, 260, 130), (390, 260, 0), (520, 260, 260)) 
 
 
 # alphabets of the two-window sweep: plain letters; with a character outside the Basic Multilingual Plane (two UTF-16 code units, one code
-# point); with a blank (parts may consist of white space only)
-TWO_ALPHABETS = ['abc', ['\U0001d520', 'a', 'b'], [' ', 'a', 'b']]
+# point); with a blank (parts may consist of white space only); a letter, a combining accent and their precomposed form (texts that Unicode
+# normalisation would shorten)
+TWO_ALPHABETS = ['abc', ['\U0001d520', 'a', 'b'], [' ', 'a', 'b'], ['e', '\u0301', '\u00e9']]
 
 
 def long_text(n, seed=7):
